@@ -32,7 +32,7 @@ local macro "rank_go" hf:ident h0:ident h1:ident : tactic =>
     have hlr : lr s = if s.lrty then 4 else 0 := rfl
     cases hg : s.gen <;> cases hr : i.srcReady <;> cases hl : s.lrty <;> cases hq : i.retryRequired <;>
       simp [$hf:ident, $h0:ident, $h1:ident, hlb, hacc, hg, hr, hl, hq, fsm_beq, gen_beq, fsmNext, genNext, done,
-        lgoodDone, lcrdDone, dispatchNext, generate, ph, nf, nr, en, step_fsm, step_gen]
+        lgoodDone, lcrdDone, dispatchNext, generate, ph, nf, nr, na, en, step_fsm, step_gen]
         at fa fc fb flb lgA lcC fA fC g0 lrD lrN hlr hT hz ⊢ <;>
       (repeat' split) <;> (try simp only [ph] at *) <;> omega))
 
@@ -41,6 +41,7 @@ local macro "rank_pre" : tactic =>
   `(tactic| (
     obtain ⟨fa, fc, fb, flg, flc, fac, a4, a3, bc, bc3, cr, hk, hc, pb, lgA, lcC, fA, fC, g0, en, nf, nr, accA,
       bcA, popB, aL, pL, lrN, lrD, lbI⟩ := facts_of (c := c) hI e
+    have na := no_abort (c := c) hI e
     have flb := (facts2_of (c := c) hI e).lb
     simp only [World.next, rankB] at hz ⊢
     simp only [flb]
